@@ -83,7 +83,7 @@ func LargestSet(dimensions []Dimensions, limit Dimensions) ([]uint64, Dimensions
 	// remove all unwanted indices from the array.
 	j := 0
 	for i := 0; i < len(outIndices)-j; i++ {
-		if outIndices[i] == uint64(len(dimensions)) {
+		if outIndices[i+j] == uint64(len(dimensions)) {
 			j++
 			i--
 			continue
